@@ -45,6 +45,39 @@ func compileElk(src string, abortChecks bool) (chunk *vm.BytecodeFunction, diags
 	return fn, strings.Join(ds, "\n"), dl.IsFailure(), ""
 }
 
+// compileElkSession compiles the inputs one after the other with one incremental checker
+// that has abort checks enabled, the way the REPL does: the first input goes through the
+// fresh compiler, every later one through the compiler the checker keeps between inputs.
+func compileElkSession(srcs []string) (chunks []*vm.BytecodeFunction, diags string, failed bool, panicked string) {
+	compileMu.Lock()
+	defer compileMu.Unlock()
+	old := checker.MethodCheckConcurrencyLimit
+	checker.MethodCheckConcurrencyLimit = 1
+	defer func() { checker.MethodCheckConcurrencyLimit = old }()
+	defer func() {
+		if r := recover(); r != nil {
+			panicked = fmt.Sprint(r)
+			failed = true
+		}
+	}()
+	c := checker.New()
+	c.SetAdditionalAbortChecks(true)
+	c.SetIncremental(true)
+	for _, src := range srcs {
+		fn, dl := c.CheckSourceBytecode("<repl>", src)
+		if dl.IsFailure() || fn == nil {
+			var ds []string
+			for _, d := range dl {
+				ds = append(ds, d.Error())
+			}
+			return nil, strings.Join(ds, "\n"), true, ""
+		}
+		c.ClearErrors()
+		chunks = append(chunks, fn)
+	}
+	return chunks, "", false, ""
+}
+
 // ElkOutcome is what one simulated run of a compiled program produced.
 type ElkOutcome struct {
 	Out      string
